@@ -45,6 +45,10 @@ def check(ctx):
   r3(ctx)
   r4(ctx)
   r5(ctx)
+  from . import c09 as _c09
+  ctx.rule('C09.R5', 'shared with C09: the fault signal reaches every subscriber: delivery iterates a copy of the subscriber set (a subscriber that unsubscribes itself while being notified -- '
+                     'the resurrector does -- must not cut the others off), and every sink a pool / resurrector creates is subscribed')
+  _c09.r5(ctx)
   from . import c14 as _c14
   ctx.rule('C14.R2', 'shared with C14: the framed read loops raise on an empty chunk (end of stream is a fault that must be reported)')
   _c14.r2(ctx)
